@@ -239,7 +239,7 @@ static void canon(Canon *c, Janet x, int depth) {
             break;
         case JANET_NUMBER: {
             double d = janet_unwrap_number(x);
-            if (d == (double)(int64_t) d && d > -1e15 && d < 1e15 && !(d == 0 && 1 / d < 0))
+            if (d > -1e15 && d < 1e15 && d == (double)(int64_t) d && !(d == 0 && 1 / d < 0))
                 snprintf(tmp, sizeof tmp, "%lld", (long long) d);
             else
                 snprintf(tmp, sizeof tmp, "%.17g", d);
@@ -696,6 +696,7 @@ static void parse_request(const char *path, Request *rq) {
             } else if (!strcmp(key, "max_yields")) sim_cfg.max_yields = strtoull(val, NULL, 10);
             else if (!strcmp(key, "max_sim_s")) sim_cfg.max_sim_ns = strtoll(val, NULL, 10) * 1000000000LL;
             else if (!strcmp(key, "clock_phase_ns")) sim_cfg.clock_phase_ns = strtoll(val, NULL, 10);
+            else if (!strcmp(key, "tick_ns")) sim_cfg.tick_ns = strtoll(val, NULL, 10);
             else if (!strcmp(key, "pipe_size")) sim_cfg.pipe_size = atoi(val);
             else if (!strcmp(key, "sock_buf")) sim_cfg.sock_buf = atoi(val);
             else if (!strcmp(key, "monitor")) sim_cfg.monitor = atoi(val);
@@ -759,10 +760,31 @@ static int run_phase(const char *src, int idx) {
     return status;
 }
 
+/* the history must survive every way the run can end: exit() from JANET_EXIT / os/exit, abort(),
+ * fatal signals and sanitizer deaths */
+extern void __sanitizer_set_death_callback(void (*cb)(void)) __attribute__((weak));
+static void flush_on_death(void) {
+    sim_hist_flush();
+}
+static void fatal_signal(int sig) {
+    sim_cfg.active = 0;
+    sim_hist("!signal", "%d", sig);
+    sim_hist_flush();
+    signal(sig, SIG_DFL);
+    raise(sig);
+}
+
 static int run_request(const char *reqpath, const char *outpath) {
     Request rq;
     parse_request(reqpath, &rq);
     sim_hist_open(outpath);
+    atexit(flush_on_death);
+    if (__sanitizer_set_death_callback) __sanitizer_set_death_callback(flush_on_death);
+    else {
+        signal(SIGSEGV, fatal_signal);
+        signal(SIGBUS, fatal_signal);
+    }
+    signal(SIGABRT, fatal_signal);
     sim_clock_reset();
     sim_fd_reset();
     sim_child_reset();
